@@ -174,13 +174,14 @@ def trade_fields(heap, trade):
 
 # =========================================================================== transact
 def broker_witness(c):
+    """values of the account at the skolem key (the key a failing pointwise obligation speaks about)"""
     I = c.I
     b = c.args["self"]
     v = SymBrokerView(I, b, I.snapshot())
-    w = {"eps": v.eps, "cash_qty": v.qty(v.cash)}
-    for name in ("c",):
-        pass
-    return w
+    k = I.skolem()
+    return {"eps": v.eps, "cash0": v.qty(v.cash), "q0": v.qty(k), "bid": v.bid(k), "ask": v.ask(k), "bid_nan": v.bid_nan(k),
+            "ask_nan": v.ask_nan(k), "mult": mult(k), "mr": mr(k), "cr": cr(k), "margin0": v.margin(k), "has_last": v.has_last(k),
+            "last0": v.last(k), "skolem_is_cash": k == v.cash}
 
 
 @register
@@ -472,7 +473,7 @@ class NetLiquidationValue(Contract):
         return out + self.post_state(c)
 
     def witness(self, c):
-        return {}
+        return broker_witness(c)
 
 
 class LazyList:
@@ -641,6 +642,9 @@ class AccruedInterest(Contract):
 # =========================================================================== holdings_weights / context (C05)
 class _Valuation(Contract):
     """shared: raises / modifies / post-state are those of net_liquidation_value(raise_if_broke=True)"""
+
+    def witness(self, c):
+        return broker_witness(c)
 
     def nlv(self):
         from . import REGISTRY
